@@ -480,6 +480,7 @@ static KV genCase()
             s.cache_coef = rbool();
             s.cache_geom = rbool();
         }
+        s.via_cli = rint(0, 1);
         s.put(c);
         c.putI("history", rint(0, 3));
         c.putI("prev_its", rpick({2, 5, 40}));
